@@ -100,6 +100,50 @@ func (x *Exec) ghostCallSeq(st *State, cls string, i string) string {
 
 // slotType finds the static type of a call-class slot from declared call classes.
 func (prog *Program) slotType(cls string, ret bool, j int) types.Type {
+	if _, ok := prog.classSigs[cls]; !ok && strings.HasPrefix(cls, "func:") {
+		// function-valued struct fields "func:pkg.Type.field": slot 0 is the function value itself
+		parts := strings.Split(strings.TrimPrefix(cls, "func:"), ".")
+		if len(parts) == 3 {
+			for _, p := range prog.All {
+				if p.Types == nil || p.Types.Name() != parts[0] {
+					continue
+				}
+				if obj := p.Types.Scope().Lookup(parts[1]); obj != nil {
+					if st, ok := obj.Type().Underlying().(*types.Struct); ok {
+						for i := 0; i < st.NumFields(); i++ {
+							if st.Field(i).Name() == parts[2] {
+								if sig, ok := st.Field(i).Type().Underlying().(*types.Signature); ok {
+									prog.classSigs[cls] = sig
+									prog.classRecv[cls] = st.Field(i).Type()
+								}
+							}
+						}
+					}
+				}
+			}
+		}
+	}
+	if _, ok := prog.classSigs[cls]; !ok {
+		// interface method classes "pkg.Iface.Method": derive the signature from the interface
+		parts := strings.Split(cls, ".")
+		if len(parts) == 3 {
+			for _, p := range prog.All {
+				if p.Types == nil || p.Types.Name() != parts[0] {
+					continue
+				}
+				if obj := p.Types.Scope().Lookup(parts[1]); obj != nil {
+					if it, ok := obj.Type().Underlying().(*types.Interface); ok {
+						for i := 0; i < it.NumMethods(); i++ {
+							if it.Method(i).Name() == parts[2] {
+								prog.classSigs[cls] = it.Method(i).Type().(*types.Signature)
+								prog.classRecv[cls] = obj.Type()
+							}
+						}
+					}
+				}
+			}
+		}
+	}
 	if sig, ok := prog.classSigs[cls]; ok {
 		if ret {
 			if j < sig.Results().Len() {
@@ -107,12 +151,16 @@ func (prog *Program) slotType(cls string, ret bool, j int) types.Type {
 			}
 			return nil
 		}
-		// slot 0 is the receiver/function value
-		if j == 0 {
-			return prog.classRecv[cls]
+		// slot 0 is the receiver (methods); functions start at their first parameter
+		rt, hasRecv := prog.classRecv[cls]
+		if hasRecv {
+			if j == 0 {
+				return rt
+			}
+			j--
 		}
-		if j-1 < sig.Params().Len() {
-			return sig.Params().At(j - 1).Type()
+		if j < sig.Params().Len() {
+			return sig.Params().At(j).Type()
 		}
 	}
 	return nil
@@ -489,6 +537,9 @@ func (x *Exec) staticWrites(fn *ssa.Function) map[string]bool {
 // contract: keys named by a callee's modifies clause (types only).
 func (sc *modScanner) contract(ct *Contract) {
 	x := sc.x
+	if ct.Logs != "" {
+		sc.ghostClass(ct.Logs)
+	}
 	if ct.ModStatic && ct.Fn != nil {
 		sc.body(ct.Fn, 0)
 		return
